@@ -60,6 +60,16 @@ class C31(C30):
                                                   'shape': 'B'}),
             c(screen=9, noise=[2, 5, 15], stmt={'k': 'line', 'x0': 3, 'y0': 300, 'x1': 600, 'y1': 20, 'c': 15,
                                                  'shape': ''}),
+            # seeded C31d: PCOPY into the active page, then draw; the page buffer must show the drawing
+            c(video='ega', screen=7, apage=1, pcopy=True, stmt={'k': 'pset', 'x': 10, 'y': 10, 'c': 15},
+              noise=[1, 0, 15]),
+            c(video='ega', screen=8, apage=0, pcopy=True, noise=[1, 3, 15],
+              stmt={'k': 'line', 'x0': 3, 'y0': 5, 'x1': 200, 'y1': 100, 'c': 15, 'shape': ''}),
+            c(video='ega', screen=9, apage=1, pcopy=True, noise=[1, 0, 15],
+              stmt={'k': 'line', 'x0': 30, 'y0': 50, 'x1': 60, 'y1': 70, 'c': 15, 'shape': 'BF'}),
+            {'k2': 'sprite', 'video': 'ega', 'screen': 7, 'view': None, 'x0': 10, 'y0': 10, 'w': 9, 'h': 4, 'seed': 5,
+             'pcopy': True},
+            {'k2': 'point', 'video': 'ega', 'screen': 7, 'view': None, 'bg': 3, 'x': 20, 'y': 20, 'pcopy': True},
             # D31a: POINT with a viewport-relative VIEW and x + view_x0 beyond the screen raised IndexError
             {'k2': 'point', 'video': 'cga', 'screen': 1, 'view': [100, 100, 200, 150, False], 'bg': 2, 'x': 300,
              'y': 10},
@@ -124,6 +134,8 @@ class C31(C30):
                 case = {'video': video, 'screen': screen, 'apage': rng.choice([0, 0, 1]), 'vpage': 0, 'view': view,
                         'window': None, 'bg': rng.randrange(max(1, nattr - 1)), 'last': None,
                         'noise': [rng.randrange(1 << 30), rng.randint(0, 8), max(1, nattr - 1)], 'stmt': st}
+                if rng.random() < 0.4:
+                    case['pcopy'] = True
                 key = 'geometry ' + kind
             elif r < 0.88:
                 sw = rng.choice([1, 2, 3, 4, 7, 8, 9, 15, 16, 17, 31, 33, rng.randint(1, 60)])
@@ -140,6 +152,8 @@ class C31(C30):
                         'x0': rng.randint(vr[0], max(vr[0], vr[2] - eff + 1)) - ox,
                         'y0': rng.randint(vr[1], vr[3] - sh + 1) - oy,
                         'w': sw, 'h': sh, 'seed': rng.randrange(1 << 30)}
+                if rng.random() < 0.4:
+                    case['pcopy'] = True
                 key = 'sprite'
             else:
                 case = {'k2': 'point', 'video': video, 'screen': screen, 'view': view,
@@ -148,6 +162,8 @@ class C31(C30):
                                          w - vr[0], w - vr[0] - 1]),
                         'y': rng.choice([0, -1, h - 1, h, rng.randrange(h), rng.randrange(h), vr[3], vr[3] + 1,
                                          h - vr[1], h - vr[1] - 1])}
+                if rng.random() < 0.4:
+                    case['pcopy'] = True
                 key = 'point'
             hist[key] = hist.get(key, 0) + 1
             hist['video ' + video] = hist.get('video ' + video, 0) + 1
@@ -163,7 +179,18 @@ class C31(C30):
         k2 = case.get('k2')
         if k2 is None:
             info = C30._run(self, case)
-            # POINT read-back for PSET
+            st = case['stmt']
+            if st['k'] == 'pset' and not info['text'] and info['status'] == [0] and not case.get('window'):
+                # POINT read-back for PSET: at once, and again after re-selecting the same pages
+                s = G.session(case['video'])
+                try:
+                    p1 = int(s.evaluate('POINT(%d,%d)' % (st['x'], st['y'])))
+                    s.execute('SCREEN ,,%d,%d' % (s._impl.display.apagenum, s._impl.display.vpagenum))
+                    p2 = int(s.evaluate('POINT(%d,%d)' % (st['x'], st['y'])))
+                    info['point_back'] = [p1, p2]
+                except Exception as e:
+                    info['point_back'] = common.canon_exc(e)
+                    G.drop_session(case['video'])
             return info
         with core.time_limit(120):
             s = G.session(case['video'])
@@ -181,6 +208,10 @@ class C31(C30):
             raise RuntimeError('SCREEN %d not available on %s: %s' % (case['screen'], case['video'], err))
         g = s._impl.display.graphics
         w, h = g._mode.pixel_width, g._mode.pixel_height
+        if case.get('pcopy') and len(s._impl.display.pages) > 1:
+            # PCOPY into the active page (0) and no page statement afterwards (C31d)
+            s.execute('PCOPY 1,0')
+            s._impl.interpreter.error_num = 0
         return g, w, h
 
     def _run_point(self, s, case):
@@ -193,6 +224,9 @@ class C31(C30):
         s._impl.interpreter.error_num = 0
         info = {'view': G.view_of(g), 'w': w, 'h': h}
         try:
+            if case.get('pcopy'):
+                # observe through a freshly selected page, not through whatever the viewport cached
+                s.execute('SCREEN ,,0,0')
             val = s.evaluate('POINT(%d,%d)' % (case['x'], case['y']))
             info['out'] = [0, int(val)]
         except Exception as e:
@@ -351,7 +385,11 @@ class C31(C30):
             return 'a pixel changed to something else than the attribute %d' % attr
         if st['k'] == 'pset':
             if changed != {(st['x'], st['y'])}:
-                return 'PSET changed %r, expected exactly (%d,%d)' % (sorted(changed)[:5], st['x'], st['y'])
+                return 'PSET changed %r in the page buffer, expected exactly (%d,%d)' % (sorted(changed)[:5], st['x'], st['y'])
+            pb = info.get('point_back')
+            if pb is not None and pb != [attr, attr]:
+                return 'POINT(%d,%d) after PSET ..,%d gives %r (at once, after re-selecting the page)' % (
+                    st['x'], st['y'], attr, pb)
             return None
         x0, y0, x1, y1 = st['x0'], st['y0'], st['x1'], st['y1']
         lx, hx, ly, hy = min(x0, x1), max(x0, x1), min(y0, y1), max(y0, y1)
